@@ -19,3 +19,28 @@ pub fn i64_of(v: &Value) -> i64 {
         _ => v.as_i64().expect("i64"),
     }
 }
+
+/// A stream wrapper that returns `Poll::Pending` (self-waking) `n` times before every item: exercises
+/// arbitrary ready/pending interleavings of the body's poll function.
+pub struct PendingStream<S> {
+    inner: std::pin::Pin<Box<S>>,
+    n: u64,
+    left: u64,
+}
+impl<S> PendingStream<S> {
+    pub fn new(inner: S, n: u64) -> Self {
+        Self { inner: Box::pin(inner), n, left: n }
+    }
+}
+impl<S: futures::Stream> futures::Stream for PendingStream<S> {
+    type Item = S::Item;
+    fn poll_next(mut self: std::pin::Pin<&mut Self>, cx: &mut std::task::Context<'_>) -> std::task::Poll<Option<Self::Item>> {
+        if self.left > 0 {
+            self.left -= 1;
+            cx.waker().wake_by_ref();
+            return std::task::Poll::Pending;
+        }
+        self.left = self.n;
+        self.inner.as_mut().poll_next(cx)
+    }
+}
